@@ -394,8 +394,21 @@ func init() {
 			if alloc > uint64(8<<20+4096*(len(b)+1)) {
 				return fmt.Sprintf("over-allocation:%d-bytes-for-%d-input", alloc, len(b))
 			}
-			if el > 3*time.Second+time.Duration(len(b))*40*time.Microsecond {
-				return fmt.Sprintf("too-slow:%dms", el.Milliseconds())
+			// time: 0.4 s + 40 us per input byte (a call normally takes microseconds; the allowance is two orders of
+			// magnitude above that).  A measurement above the budget is repeated twice and the minimum counts, so that a
+			// scheduling hiccup on a loaded machine is not mistaken for slow code.
+			budget := 400*time.Millisecond + time.Duration(len(b))*40*time.Microsecond
+			if el > budget {
+				for i := 0; i < 2 && el > budget; i++ {
+					t1 := time.Now()
+					f(b, p)
+					if e2 := time.Since(t1); e2 < el {
+						el = e2
+					}
+				}
+				if el > budget {
+					return fmt.Sprintf("too-slow:%dms-for-%d-bytes", el.Milliseconds(), len(b))
+				}
 			}
 			return "ok"
 		})
